@@ -86,7 +86,7 @@ theorem mapM_ni {α β} {f : α → M β} (hf : ∀ a, NI (f a)) : ∀ l : List 
   unfold setOption; ni_go
 
 section
-variable (rec : Rec) (env : Env) (hs : ∀ x, NI (rec.spans x)) (hd : ∀ x, NI (rec.document x))
+variable (rec : Rec) (env : Env) (hs : ∀ x, NI (rec.spans x)) (hd : ∀ d x, NI (rec.document d x))
 include hs
 
 theorem battrParse_ni (attrs : Str) : NI (battrParse rec env attrs) := by
@@ -200,25 +200,25 @@ theorem documentLoop_ni : ∀ fuel r w, NI (documentLoop rec env fuel r w) := by
   | zero => intro r w; unfold documentLoop; ni_go
   | succ n ih => intro r w; unfold documentLoop; ni_go
 
-theorem documentRender_ni (fuel : Nat) (src : Str) : NI (documentRender rec env fuel src) := by
+theorem documentRender_ni (fuel : Nat) (src : Str) (d : Nat) : NI (documentRender rec env fuel src d) := by
   have h := documentLoop_ni rec env hs hd
   unfold documentRender; ni_go
 
 end
 
 /-- Tying the knot: at every fuel level nested span and document renders are non-interfering. -/
-theorem mkRec_ni (env : Env) : ∀ n, (∀ x, NI ((mkRec env n).spans x)) ∧ (∀ x, NI ((mkRec env n).document x)) := by
+theorem mkRec_ni (env : Env) : ∀ n, (∀ x, NI ((mkRec env n).spans x)) ∧ (∀ d x, NI ((mkRec env n).document d x)) := by
   intro n
   induction n with
-  | zero => exact ⟨fun x => NI.raise _, fun x => NI.raise _⟩
+  | zero => exact ⟨fun x => NI.raise _, fun d x => NI.raise _⟩
   | succ n ih =>
     obtain ⟨ihs, ihd⟩ := ih
     refine ⟨?_, ?_⟩
     · intro x
       show NI (spansRender (mkRec env n) env x)
       exact spansRender_ni _ env ihs x
-    · intro x
-      show NI (documentRender (mkRec env n) env (n+1) x)
-      exact documentRender_ni _ env ihs ihd _ x
+    · intro d x
+      show NI (documentRender (mkRec env n) env (n+1) x d)
+      exact documentRender_ni _ env ihs ihd _ x d
 
 end Rimu
